@@ -38,7 +38,7 @@ STR_OPS = {'lower', 'upper', 'strip', 'split', 'startswith', 'endswith', 'encode
 
 
 def check(run, ctx):
-    run.each(ctx, [r1, r2, r3, r4, r5, r6, r7, r8, r10])
+    run.each(ctx, [r1, r2, r3, r4, r5, r6, r7, r8, r10, r11])
 
 
 # -- R1 -----------------------------------------------------------------------
@@ -725,6 +725,25 @@ def r8(run, ctx):
                 again = p.id in r
                 run.check('R9', not again, 'an expired poll leaves the loop by raising', f, p.ast,
                           'after a timeout the client polls again instead of reporting it')
+
+
+def r11(run, ctx):
+    run.rule('R11', 'the dispatcher recognises an operation that completes later')
+    # Controller.dispatch answers at once unless the command handed back a Future; the test
+    # must name the class of the futures gen.coroutine returns, or every asynchronous
+    # operation is "answered" with the Future object itself
+    from rules.common import future_tests, coroutine_future_class
+    f = ctx.fn(C + 'dispatch')
+    ft = future_tests(ctx, f)
+    if run.need('R11', ft, 'isinstance(resp, Future) test in dispatch', f,
+                'dispatch no longer tells an asynchronous operation from a finished one'):
+        for n, e in ft:
+            run.check('R11', coroutine_future_class(f, e.args[1]),
+                      'the Future test names the class coroutines return', f, n.ast,
+                      'dispatch tests the result against %s, not the class of the futures '
+                      'gen.coroutine returns: the reply of every asynchronous operation is the '
+                      'Future object, which cannot be serialised' % norm_text(e.args[1]),
+                      construct='WRONG-FUTURE-CLASS')
 
 
 def r10(run, ctx):
